@@ -249,6 +249,76 @@ def run(prop, tier):
                 records.append(dict(id=rid, kind="book", ok=ok))
                 index[rid] = dict(kind="program book sampleable", model=name, variant=variant, error=err)
                 rid += 1
+    # ---- one uncertain quantity at a time ("all models with at least one uncertain quantity"): whatever form the single uncertain
+    # entry takes - time data, a constant, a constant or data equal to zero, a program's spending / unit cost / capacity constraint /
+    # saturation, an outcome row - the samples of one call differ pairwise and the source is left alone
+    import sciris as sc
+    from atomica.utils import TimeSeries
+
+    def clear(obj):
+        if hasattr(obj, "all_pars"):
+            for par in obj.all_pars():
+                for ts in par.ts.values():
+                    ts.sigma = None
+        else:
+            for prog in obj.programs.values():
+                for ts in (prog.spend_data, prog.unit_cost, prog.capacity_constraint, prog.saturation, prog.coverage):
+                    ts.sigma = None
+            for co in obj.covouts.values():
+                co.sigma = None
+
+    singles = []
+    for name in (["udt"] + (["tb_simple", "hiv"] if thorough else [])):
+        Q = at.demo(name, do_run=False)
+        q0 = Q.parsets[0]
+        clear(q0)
+        groups = [("parameter", list(q0.pars.values())), ("transfer", [x for d in q0.transfers.values() for x in d.values()]), ("interaction", [x for d in q0.interactions.values() for x in d.values()])]
+        for gname, plist in groups:
+            cand = [(par, pop) for par in plist for pop, ts in par.ts.items() if ts.has_data]
+            if not cand:
+                continue
+            for form in ("as entered", "constant", "constant zero", "time data all zero"):
+                q = sc.dcp(q0)
+                par, pop = cand[0]
+                ts = [x for x in (list(q.pars.values()) + [x for d in q.transfers.values() for x in d.values()] + [x for d in q.interactions.values() for x in d.values()]) if x.name == par.name][0].ts[pop]
+                if form == "constant":
+                    ts.t, ts.vals, ts.assumption = [], [], 0.25
+                elif form == "constant zero":
+                    ts.t, ts.vals, ts.assumption = [], [], 0.0
+                elif form == "time data all zero":
+                    ts.t, ts.vals, ts.assumption = [2016.0, 2018.0], [0.0, 0.0], None
+                ts.sigma = 0.1
+                singles.append((dict(model=name, source="parameter set", quantity="%s %s (%s)" % (gname, par.name, pop), form=form), q))
+        if Q.progsets:
+            g0 = sc.dcp(Q.progsets[0])
+            clear(g0)
+            pname = list(g0.programs.keys())[0]
+            for attr, zero_ok in (("spend_data", True), ("unit_cost", False), ("capacity_constraint", True), ("saturation", True), ("coverage", True)):
+                for form in ("as entered", "constant", "constant zero"):
+                    if form == "constant zero" and not zero_ok:
+                        continue
+                    g = sc.dcp(g0)
+                    ts = getattr(g.programs[pname], attr)
+                    if form == "as entered" and not ts.has_data:
+                        continue
+                    if form == "constant":
+                        ts.t, ts.vals, ts.assumption = [], [], 0.5
+                    elif form == "constant zero":
+                        ts.t, ts.vals, ts.assumption = [], [], 0.0
+                    ts.sigma = 0.1
+                    singles.append((dict(model=name, source="program set", quantity="%s of %s" % (attr, pname), form=form), g))
+            for key in list(g0.covouts.keys())[:2]:
+                g = sc.dcp(g0)
+                g.covouts[key].sigma = 0.05
+                singles.append((dict(model=name, source="program set", quantity="outcomes of %s" % (key,), form="as entered"), g))
+    for label, obj in singles:
+        before = DG.dig(obj)
+        np.random.seed(C.seed() + rid)
+        digs = [DG.dig(obj.sample()) for _ in range(3)]
+        records.append(dict(id=rid, kind="schedule", digests=digs, before=before, after=DG.dig(obj)))
+        index[rid] = dict(kind="single uncertain quantity: %s, %s" % (label["source"], label["form"]), **label)
+        rid += 1
+    cov["single_quantity_cases"] = len(singles)
     bad, states = C.validate_batch(["SamplingTrace"], "SamplingTrace", records, chunks=1)
     cov["states"] += states
     cov["transitions"] += states
